@@ -89,7 +89,15 @@ def cmdline(argv=None):
     except:
         _exit()
     else:
-        if output_file:
+        # with --output-encoding the template renders to bytes
+        if isinstance(rendered, bytes):
+            if output_file:
+                with open(output_file, "wb") as fp:
+                    fp.write(rendered)
+            else:
+                sys.stdout.flush()
+                sys.stdout.buffer.write(rendered)
+        elif output_file:
             open(output_file, "wt", encoding=output_encoding).write(rendered)
         else:
             sys.stdout.write(rendered)
